@@ -913,6 +913,8 @@ def oracle(ctx):
 
 def search(ctx):
     """An obligation broke and nothing produced a witness: a deeper run of the same oracle."""
+    from . import c08_rows
+    c08_rows.search(ctx, 600)
     ctx.c08_data = None
     old = ctx.tier
     ctx.tier = "thorough"
